@@ -493,7 +493,13 @@ def raster_box(R, xyz, r, res3, ranged):
             return None
         lo.append(math.floor(mn))
         hi.append(math.ceil(mx))
-    if ranged:
+    if ranged == 2:
+        # a thin block through the middle of the tree (block-wise rendering): one unit thick across the longest axis, so that edges
+        # cross it with both end nodes outside
+        c_ = max(range(3), key=lambda c: hi[c] - lo[c])
+        mid = (lo[c_] + hi[c_]) // 2
+        lo[c_], hi[c_] = mid, mid + 1
+    elif ranged:
         lo = [v - 1 for v in lo]
         hi = [v + 2 for v in hi]
     counts, upper = Counts(), []
@@ -581,7 +587,7 @@ def check_raster(case, R):
 
     p, xyz, r = raster_geometry(case)
     res = case[-2]
-    ranged = bool(case[-1])
+    ranged = int(case[-1])
     edges = ref.edges(p)
     if not edges:
         R.trivial()
@@ -761,7 +767,9 @@ def raster_cases(st_hi, banks, with_edges, resolutions, lt_hi=4):
         if True:
             for b in banks:
                 for res in resolutions:
-                    for ranged in (0, 1):
+                    for ranged in (0, 1, 2):
+                        if ranged == 2 and (len(p) < 2 or res not in (1, 0.5)):
+                            continue
                         yield ("tree", list(p), b, res if not isinstance(res, tuple) else list(res), ranged)
     if with_edges:
         import itertools as _it
@@ -784,6 +792,8 @@ def raster_cases(st_hi, banks, with_edges, resolutions, lt_hi=4):
                             continue
                         for res in resolutions:
                             yield ("edge", ra, rb, L, di, res if not isinstance(res, tuple) else list(res), 0)
+                        if L >= 3.0:
+                            yield ("edge", ra, rb, L, di, 0.5, 2)  # a one-unit block across the middle of a long edge
 
 
 
